@@ -239,11 +239,20 @@ func ruleR17_3(w *World, r *Report) {
 		r.Lost("OrdaService.ProcessPushPull")
 	} else {
 		for _, c := range callsNamed(fn, "newPushPullHandler") {
-			paths, ok := pathLinCmps(fn, c.(ssa.Instruction), colAbs)
-			good := ok && (allPathsHave(paths, "+CLIENTCOL-COL == 0") || allPathsHave(paths, "-CLIENTCOL+COL == 0"))
+			d := deepOfDepth(fn, 1)
+			paths, ok := d.paths(dins{d.root, c.(ssa.Instruction)}, colAbs)
+			good := ok && (allLitPathsHaveLin(paths, "+CLIENTCOL-COL == 0") || allLitPathsHaveLin(paths, "-CLIENTCOL+COL == 0"))
 			// and the client exists
-			lits, _ := litStrings(fn, c.(ssa.Instruction))
-			good = good && allPathsContain(lits, "GetClient(", "#0 != nil")
+			good = good && allLitPathsContain(paths, "#0 != nil")
+			for _, p := range paths {
+				found := false
+				for _, l := range p.strs {
+					if strings.Contains(l, "GetClient(") && strings.HasSuffix(l, "#0 != nil") {
+						found = true
+					}
+				}
+				good = good && found
+			}
 			a := c.Common().Args
 			good = good && strings.Contains(canonName(a[2]), "GetClient(") && strings.Contains(canonName(a[3]), "getCollectionDocWithRPCError(")
 			r.Check(good, "ProcessPushPull/client bound to collection", u.Pos(c.Pos()), "handlers only for a registered client of this collection", fmt.Sprintf("a handler is created under %v; expected client found and client.CollectionNum == collection.Num, with that client and collection handed to the handler", paths))
@@ -253,18 +262,13 @@ func ruleR17_3(w *World, r *Report) {
 		r.Lost("OrdaService.ProcessClient")
 	} else {
 		for _, c := range callsNamed(fn, "UpdateClient") {
-			paths, _ := reachingLits(fn, nil, c.(ssa.Instruction))
+			d := deepOfDepth(fn, 1)
+			paths, _ := d.paths(dins{d.root, c.(ssa.Instruction)}, rewriter(`^.*GetClient\(.*#0\.CollectionNum$`, "DBCOL", `^.*\.CollectionNum$`, "REQCOL"))
 			good := len(paths) > 0
 			for _, p := range paths {
-				okp := false
-				for _, l := range p {
-					if lc, ok := canonLinCmp(l); ok {
-						s := linCmp{L: abstractLin(lc.L, rewriter(`^.*GetClient\(.*#0\.CollectionNum$`, "DBCOL", `^.*\.CollectionNum$`, "REQCOL")), Op: lc.Op}.String()
-						if s == "+DBCOL-REQCOL == 0" || s == "-DBCOL+REQCOL == 0" {
-							okp = true
-						}
-					}
-					if l.Kind == "cmp" && l.Op.String() == "==" && strings.Contains(canonName(l.X), "GetClient(") && strings.HasSuffix(canonName(l.X), "#0") {
+				okp := has(p.lins, "+DBCOL-REQCOL == 0") || has(p.lins, "-DBCOL+REQCOL == 0")
+				for _, l := range p.strs {
+					if strings.Contains(l, "GetClient(") && strings.HasSuffix(l, "#0 == nil") {
 						okp = true // not registered yet
 					}
 				}
